@@ -511,6 +511,25 @@ def run_pauli(case, seed, R):
     want = [np.trace(PAULI[k] @ J, axis1=-2, axis2=-1) / 2 for k in range(4)]
     for k in range(4):
         R.expect_close(cs[k], want[k], 8 * TOLU * max(1.0, fro(J)), 'pauli_coefficients:value', f'c_{k} != tr(sigma_{k} J)/2')
+    # Jones matrices held in a REAL or INTEGER dtype (a rotator, a real polariser product, an integer test matrix): J01 != J10 makes the
+    # sigma_2 coefficient imaginary, so the reconstruction needs complex coefficients from a real-dtype input
+    th = 0.3 + 0.17 * case['off']
+    reals = [('float64', np.array([[np.cos(th), -np.sin(th)], [np.sin(th), np.cos(th)]])),
+             ('float32', np.array([[0.5, 1.25], [-0.75, 2.0]], dtype=np.float32)),
+             ('int64', np.array([[1, 2], [-3, 4]])), ('int32', np.array([[0, 1], [-1, 0]], dtype=np.int32)),
+             ('float64-batch', np.stack([np.array([[1.0, k + 1.0], [-(k + 2.0), 0.5 * k]]) for k in range(max(nb, 1))]).reshape(shape + (2, 2)))]
+    for label, Jr in reals:
+        c = R.call(pol.pauli_coefficients, Jr.copy(), sig='pauli_coefficients:real-dtype:exception')
+        if c is FAILED:
+            continue
+        try:
+            crs = [np.asarray(x) for x in c]
+            rec = sum(crs[k][..., None, None] * PAULI[k] for k in range(4))
+        except Exception as e:   # noqa
+            R.violation('pauli:reconstruct:real-dtype', f'unusable output for a {label} matrix: {e}')
+            continue
+        R.expect_close(rec, Jr.astype(complex), 8 * TOLU * max(1.0, fro(Jr.astype(float))), 'pauli:reconstruct:real-dtype',
+                       f'sum c_k sigma_k != J for a {label} Jones matrix with J01 != J10')
     R.nontrivial(True)
     R.outcome('pauli')
 
